@@ -1514,9 +1514,8 @@ func (c *DefaultCtx) renderExtensions(bind any) {
 		}
 	}
 
-	if len(c.app.mountFields.appListKeys) == 0 {
-		c.app.generateAppListKeys()
-	}
+	// (once: the first requests that render may arrive at the same time)
+	c.app.mountFields.appListKeysGenerated.Do(c.app.generateAppListKeys)
 }
 
 // Req returns a convenience type whose API is limited to operations
